@@ -444,6 +444,44 @@ func TestCheck(t *testing.T) {
 		}
 		c.SetExhaustive("grid_all_configs", false)
 
+		// every length 1..N per content class and level (magic-length defects), automatic version and mask
+		{
+			maxN := map[string][2]int{"numeric": {400, 2500}, "alnum": {300, 1600}, "ascii": {200, 1100}, "utf8": {200, 1100}, "latin1all": {200, 1000}, "kanji": {120, 650}, "sjismixed": {200, 900}}
+			idx := 0
+			for _, class := range classes {
+				mode, css := classMode(class)
+				lim := maxN[class][0]
+				if c.Thorough() {
+					lim = maxN[class][1]
+				}
+				for n := 1; n <= lim; n++ {
+					idx++
+					if !c.Mine(idx) {
+						continue
+					}
+					l := (n + idx) % 4
+					cs := Case{Level: l, MHint: -1, Charset: css[len(css)-1]}
+					if class == "ascii" || class == "numeric" || class == "alnum" || class == "utf8" {
+						cs.Charset = ""
+					}
+					hdr := 0
+					if mode == qrref.Byte && cs.Charset != "" {
+						hdr = 12
+					}
+					cs.Text = genText(class, n, hx.NewRng(c.Seed("len-"+class, n)))
+					if _, cnt, _, ok := encodedLen(cs.Text, cs.Charset); !ok || qrref.MinVersion(mode, cnt, l, hdr) == 0 {
+						continue
+					}
+					raw, _ := json.Marshal(cs)
+					c.Note("length_sweep", "class="+class, true, hx.Hash(raw), func() any { return sample(cs) })
+					if !c.Enum("length_sweep", "qr_roundtrip", cs, shrink) {
+						break
+					}
+				}
+			}
+			c.SetExhaustive("length_sweep", false)
+		}
+
 		c.Rapid("random", c.N(1200, 5000), func(t *rapid.T) {
 			cs, cl := gen(t)
 			if _, n, _, ok := encodedLen(cs.Text, cs.Charset); !ok || n == 0 {
